@@ -1,20 +1,14 @@
-(** Executable entry points of the C05 model (dictionaries).  Two value types:
-    tlb.Uint32 (32 bits inline, printed n<hex>) and tlb.Any (the rest of the
-    leaf cell, bits and references, printed as a cell); the flag [any] of a
-    case selects the decoder. *)
+(** Executable entry points of the C05 model (dictionaries).  Values are
+    tlb.Uint32 (32 bits inline, printed n<hex>); keys are printed as their bits. *)
 From Coq Require Import List NArith ZArith String Bool.
 From Tongo Require Import Lib.Bits Lib.Res Lib.Sx Spec.Dict Model.Hashmap.
 Import ListNotations.
 Local Open Scope string_scope.
 Local Open Scope list_scope.
 
-Inductive val := VU (v : N) | VA (c : cell).
-
-Definition venc_val (v : val) : bits * list cell :=
-  match v with VU n => (bits_of 32 n, []) | VA c => venc_any c end.
-Definition vdec_val (any : bool) (l : bits) (rs : list cell) : option val :=
-  if any then Some (VA (Cell l rs))
-  else if short 32 l then None else Some (VU (N_of_bits (firstn 32 l))).
+Definition venc_val (v : N) : bits * list cell := (bits_of 32 v, []).
+Definition vdec_val (l : bits) (rs : list cell) : option N :=
+  if short 32 l then None else Some (N_of_bits (firstn 32 l)).
 
 Fixpoint sx_cell (c : cell) : sx :=
   match c with Cell b rs => SL [SBits b; SL (map sx_cell rs)] end.
@@ -37,56 +31,60 @@ Fixpoint cell_sx (a : sx) : option cell :=
 Definition sx_res {A} (f : A -> sx) (r : res A) : sx :=
   match r with Ok a => f a | Err _ => SA "err" | Panic _ => SA "panic" end.
 
-Definition sx_val (v : val) : sx := match v with VU n => SN n | VA c => sx_cell c end.
-Definition val_sx (a : sx) : option val :=
-  match a with
-  | SN n => Some (VU n)
-  | _ => match cell_sx a with Some c => Some (VA c) | None => None end
-  end.
+Definition sx_items (m : list (bits * N)) : sx :=
+  SL (map (fun kv => SL [SBits (fst kv); SN (snd kv)]) m).
 
-Definition sx_items (m : list (bits * val)) : sx :=
-  SL (map (fun kv => SL [SBits (fst kv); sx_val (snd kv)]) m).
-
-Fixpoint items_sx (l : list sx) : option (list (bits * val)) :=
+Fixpoint items_sx (l : list sx) : option (list (bits * N)) :=
   match l with
   | [] => Some []
-  | SL [SBits k; v] :: t =>
-      match val_sx v, items_sx t with
-      | Some v, Some m => Some ((k, v) :: m)
-      | _, _ => None
+  | SL [SBits k; SN v] :: t =>
+      match items_sx t with
+      | Some m => Some ((k, v) :: m)
+      | None => None
       end
   | _ => None
   end.
 
+(* Compare of the key type: IntN numeric, everything else bit order *)
 Definition klt_of (sgn : bool) : bits -> bits -> bool :=
   if sgn then signed_ltb else bits_ltb.
 
-Definition enc_mode (e : bool) (n : nat) (m : list (bits * val)) : res cell :=
+Definition enc_mode (e : bool) (n : nat) (m : list (bits * N)) : res cell :=
   if e then encode_e venc_val n m else encode venc_val n m.
-Definition dec_mode (e any : bool) (n : nat) (c : cell) : res (list (bits * val)) :=
-  if e then decode_e (vdec_val any) n c else decode (vdec_val any) n c.
+Definition dec_mode (e : bool) (n : nat) (c : cell) : res (list (bits * N)) :=
+  if e then decode_e vdec_val n c else decode vdec_val n c.
 
-(* c05.encode: (n signed hashmapE any ((key value) ...)) in insertion order
-   -> cell tree | 'err   (the flag [any] only tells the Go side which value
-   type to instantiate; here the printed form of a value determines it) *)
+(* c05.encode: (n signed hashmapE ((key value) ...)): Put in that order, Marshal
+   -> cell tree | 'err *)
 Definition run_encode (a : sx) : sx :=
   match a with
-  | SL [SN n; SB sgn; SB e; SB _; SL kvs] =>
+  | SL [SN n; SB sgn; SB e; SL kvs] =>
       match items_sx kvs with
-      | Some l =>
-          let m := puts bits_eqb (klt_of sgn) l [] in
-          sx_res sx_cell (enc_mode e (N.to_nat n) m)
+      | Some l => sx_res sx_cell (enc_mode e (N.to_nat n) (puts bits_eqb (klt_of sgn) l []))
       | None => sx_err "encode items"
       end
   | _ => sx_err "encode"
   end.
 
-(* c05.decode: (n hashmapE any cell) -> ((key value) ...) | 'err *)
+(* c05.raw: (n signed hashmapE ((key value) ...)): NewHashmap(E)(keys, values) with
+   the slices exactly in that order (duplicates allowed), Marshal -> cell tree | 'err
+   (the flag [signed] only selects the Go key type; Compare is not involved) *)
+Definition run_raw (a : sx) : sx :=
+  match a with
+  | SL [SN n; SB _; SB e; SL kvs] =>
+      match items_sx kvs with
+      | Some l => sx_res sx_cell (enc_mode e (N.to_nat n) l)
+      | None => sx_err "raw items"
+      end
+  | _ => sx_err "raw"
+  end.
+
+(* c05.decode: (n hashmapE cell) -> ((key value) ...) | 'err *)
 Definition run_decode (a : sx) : sx :=
   match a with
-  | SL [SN n; SB e; SB any; c] =>
+  | SL [SN n; SB e; c] =>
       match cell_sx c with
-      | Some c => sx_res sx_items (dec_mode e any (N.to_nat n) c)
+      | Some c => sx_res sx_items (dec_mode e (N.to_nat n) c)
       | None => sx_err "decode cell"
       end
   | _ => sx_err "decode"
@@ -105,13 +103,13 @@ Definition form_sx (a : sx) : option form :=
   | _ => None
   end.
 
-Fixpoint apt_sx (a : sx) : option (apt val) :=
+Fixpoint apt_sx (a : sx) : option (apt N) :=
   match a with
-  | SL [SA tag; f; SBits lbl; v] =>
+  | SL [SA tag; f; SBits lbl; SN v] =>
       if String.eqb tag "l" then
-        match form_sx f, val_sx v with
-        | Some f, Some v => Some (ALeaf f lbl v)
-        | _, _ => None
+        match form_sx f with
+        | Some f => Some (ALeaf f lbl v)
+        | None => None
         end
       else None
   | SL [SA tag; f; SBits lbl; l; r] =>
@@ -136,11 +134,11 @@ Definition run_cells (a : sx) : sx :=
   | _ => sx_err "cells"
   end.
 
-(* c05.ops: (n signed any cell (op ...)): decode the HashmapE, then
+(* c05.ops: (n signed cell (op ...)): decode the HashmapE, then
    ('get k) -> (v) | 'none ; ('put k v) -> 'ok ; finally the items and the
    re-encoded HashmapE *)
-Fixpoint run_oplist (sgn : bool) (m : list (bits * val)) (ops : list sx)
-  : list sx * list (bits * val) :=
+Fixpoint run_oplist (sgn : bool) (m : list (bits * N)) (ops : list sx)
+  : list sx * list (bits * N) :=
   match ops with
   | [] => ([], m)
   | o :: t =>
@@ -148,14 +146,10 @@ Fixpoint run_oplist (sgn : bool) (m : list (bits * val)) (ops : list sx)
         match o with
         | SL [SA nm; SBits k] =>
             if String.eqb nm "get" then
-              (match get bits_eqb k m with Some v => SL [sx_val v] | None => SA "none" end, m)
+              (match get bits_eqb k m with Some v => SL [SN v] | None => SA "none" end, m)
             else (sx_err "op", m)
-        | SL [SA nm; SBits k; v] =>
-            if String.eqb nm "put" then
-              match val_sx v with
-              | Some v => (SA "ok", put bits_eqb (klt_of sgn) k v m)
-              | None => (sx_err "op value", m)
-              end
+        | SL [SA nm; SBits k; SN v] =>
+            if String.eqb nm "put" then (SA "ok", put bits_eqb (klt_of sgn) k v m)
             else (sx_err "op", m)
         | _ => (sx_err "op", m)
         end in
@@ -164,10 +158,10 @@ Fixpoint run_oplist (sgn : bool) (m : list (bits * val)) (ops : list sx)
 
 Definition run_ops (a : sx) : sx :=
   match a with
-  | SL [SN n; SB sgn; SB any; c; SL ops] =>
+  | SL [SN n; SB sgn; c; SL ops] =>
       match cell_sx c with
       | Some c =>
-          match decode_e (vdec_val any) (N.to_nat n) c with
+          match decode_e vdec_val (N.to_nat n) c with
           | Ok m =>
               let '(rs, mf) := run_oplist sgn m ops in
               SL (rs ++ [sx_items mf; sx_res sx_cell (encode_e venc_val (N.to_nat n) mf)])
@@ -178,20 +172,25 @@ Definition run_ops (a : sx) : sx :=
   | _ => sx_err "ops"
   end.
 
-(* c05.addr: (((workchain address value) ...)): keys of tlb.AddressWithWorkchain.
-   FixedSize() is 288 but the reflection encoder writes int8 + 256 bits = 264
-   bits (finding F19); Compare = uint32(int8 workchain), then bytes = bit order
-   of the 264-bit key.  -> (cell decode-result) *)
-Fixpoint addr_items (l : list sx) : option (list (bits * val)) :=
+(* c05.addr: (((workchain address value) ...)): keys given as values of
+   tlb.AddressWithWorkchain (int8 workchain, 32 address bytes): Put in that
+   order, Marshal, Unmarshal -> (cell ((workchain address value) ...)) | 'err.
+   Compare = uint32(workchain) then bytes = bit order of the 288-bit key
+   (C05_key_address). *)
+Fixpoint addr_items (l : list sx) : option (list (bits * N)) :=
   match l with
   | [] => Some []
   | SL [SZ wc; SBytes a; SN v] :: t =>
       match addr_items t with
-      | Some m => Some ((bits_of 8 (Z.to_N (wc mod 256)) ++ flat_map (bits_of 8) a, VU v) :: m)
+      | Some m => Some ((addr_key (wc, a), v) :: m)
       | None => None
       end
   | _ => None
   end.
+
+(* the decoded key as a value: UnmarshalTLB = int8(ReadInt(32)), ReadBytes(32) *)
+Definition sx_addr_item (kv : bits * N) : sx :=
+  let k := addr_unkey (fst kv) in SL [SZ (fst k); SBytes (snd k); SN (snd kv)].
 
 Definition run_addr (a : sx) : sx :=
   match a with
@@ -199,7 +198,7 @@ Definition run_addr (a : sx) : sx :=
       match addr_items l with
       | Some l =>
           match encode_e venc_val 288 (puts bits_eqb bits_ltb l []) with
-          | Ok c => SL [sx_cell c; sx_res sx_items (decode_e (vdec_val false) 288 c)]
+          | Ok c => SL [sx_cell c; sx_res (fun m => SL (map sx_addr_item m)) (decode_e vdec_val 288 c)]
           | _ => SA "err"
           end
       | None => sx_err "addr items"
@@ -210,6 +209,7 @@ Definition run_addr (a : sx) : sx :=
 Definition run (name : string) (a : sx) : sx :=
   let is x := String.eqb name x in
   if is "c05.encode" then run_encode a
+  else if is "c05.raw" then run_raw a
   else if is "c05.decode" then run_decode a
   else if is "c05.cells" then run_cells a
   else if is "c05.ops" then run_ops a
